@@ -118,7 +118,8 @@ Print Assumptions c42_frontends_exactly_requested.
    must list (all of the service's, or those on the remote node), with the service's affinity and with the
    local-only flags the traffic policy requires (external-local on node ports and LB IPs iff
    externalTrafficPolicy=Local, never on the cluster IP; internal-local on the cluster IP iff
-   internalTrafficPolicy=Local); the maglev flag only on maglev services *)
+   internalTrafficPolicy=Local); the maglev flag only on maglev services; the nat-exclude flag iff the service carries
+   the natExcludeService annotation *)
 Theorem c42_requested_frontend_served : forall npips prev st v next next' us s eps k kd,
   visit_valid st v = true -> visit_all prev next st v = Some (next', us) ->
   In (s, eps) st -> In (k, kd) (spec_frontends npips s eps) ->
